@@ -1,5 +1,5 @@
 """C17 — PVQ, Laplace and table-driven symbol codes are exact, prefix-free bijections (DESIGN.md §7.C17)."""
-import concurrent.futures, os, re, shutil
+import concurrent.futures, os, re, shutil, time
 import common
 
 LEAN_MODULES = ['OpusProps.C17']
@@ -11,7 +11,7 @@ SOURCES = ['celt/cwrs.c', 'celt/cwrs.h', 'celt/laplace.c', 'celt/laplace.h', 'ce
            'silk/shell_coder.c', 'silk/code_signs.c', 'silk/NLSF_unpack.c']
 RULE = ('cwrs: for every (N,K) of the static mode\'s pulse cache (23 band sizes x K = get_pulses(1..cache[0]), 369 pairs, '
         'plus N in 2..14 the table supports but the mode does not use) all indices 0..V(N,K)-1 in blocks of 4096 when '
-        'V <= 2^20 (quick) / 2^24 (thorough), otherwise 64 strata x 64 indices + both ends + the sign/zero boundaries; '
+        'V <= 2^20 (quick) / 2^22 (thorough; the implementation-only search goes to 2^24), otherwise 64 strata x 64 indices + both ends + the sign/zero boundaries; '
         'encode_pulses on random K-pulse vectors of four shapes; bits2pulses for bits -2..300 and pulses2bits on every cache row. '
         'laplace: all 32768 fm and all values -17000..17000 (clamping included) for every distinct (fs,decay) pair of '
         'e_prob_model plus random legal pairs incl. the domain corners; _p0 variants on random (p0,decay,value). '
@@ -61,6 +61,9 @@ LEVEL_NOTE = ('trusted: Lean kernel; the extractors tools/extract/CeltTables.c, 
 TECHNIQUE = 'Lean 4 theorems (induction + decide on regenerated tables) + table regeneration + differential correspondence + witness search'
 
 
+WRAP = ['-Wl,--wrap=ec_enc_icdf', '-Wl,--wrap=ec_dec_icdf']
+
+
 def _harness(ctx, name, variant, **kw):
     """ctx.harness with a retry: the shared library cache (.cache/lib, pruned to the 8 newest trees) can lose a
     directory to a concurrent check of another property between build_lib and the compile."""
@@ -75,6 +78,17 @@ def _harness(ctx, name, variant, **kw):
                 shutil.rmtree(os.path.join(common.CACHE, 'lib', '%s-%s' % (common.repo_hash(), variant)), ignore_errors=True)
 
 
+def _run_tie(name, cmd, timeout):
+    """common.run_tie, waiting out the moments in which another owner's build is relinking the shared driver binary."""
+    for attempt in range(12):
+        try:
+            return common.run_tie(name, cmd, timeout)
+        except FileNotFoundError:
+            if attempt == 11:
+                raise
+            time.sleep(10)
+
+
 def ties(ctx):
     hc = _harness(ctx, 'c17_cwrs', 'san')
     hl = _harness(ctx, 'c17_laplace', 'san')
@@ -82,8 +96,10 @@ def ties(ctx):
     n = 8 if ctx.quick else 16
     jobs = [('cwrs-%02d' % i, [hc, 'tie', level, str(i), str(n), str(ctx.seed)]) for i in range(n)]
     jobs.append(('laplace', [hl, 'tie', level, str(ctx.seed)]))
-    with concurrent.futures.ThreadPoolExecutor(max_workers=len(jobs)) as ex:
-        futs = [ex.submit(common.run_tie, name, cmd, 6000) for name, cmd in jobs]
+    hsites = _harness(ctx, 'c17_sites', 'plain', opt='-O2', extra=WRAP)
+    jobs.append(('icdf-sites', [hsites, 'tie', str(ctx.seed), '30' if ctx.quick else '200']))
+    with concurrent.futures.ThreadPoolExecutor(max_workers=5) as ex:   # shared machine: at most 5 harness|driver pipelines
+        futs = [ex.submit(_run_tie, name, cmd, 6000) for name, cmd in jobs]
         out = [f.result() for f in futs]
     out.append(_ftb_scan())
     return out
@@ -93,6 +109,11 @@ def classify(ctx, tie, mm):
     # The property is relational (bijection / tiling), not "the code computes this particular enumeration":
     # a model/code disagreement alone is a broken correspondence; the witness search (S4) evaluates the
     # property on the implementation and supplies the failing codeword if there is one.
+    # Exception: the ICDF clause IS "every table the code uses satisfies icdfOk": a table captured at a real call
+    # site that the (proved) predicate rejects for the ftb of that call is a failing input of the property.
+    if tie.name == 'icdf-sites' and 'ok=0' in (mm.get('model') or ''):
+        return {'suite': 'icdf', 'input': mm.get('input', ''), 'expected': 'icdfOk ftb table (strictly decreasing, ends in 0, first entry < 2^ftb)',
+                'observed': mm.get('model'), 'why': 'an ICDF table as passed to ec_enc_icdf/ec_dec_icdf at a real call site is not an exact code'}
     return None
 
 
@@ -190,14 +211,18 @@ def search(ctx):
                      '64-bit; cache rows monotone and within [log2 V, log2 V + 0.25] bits; every ICDF table well-formed and every symbol '
                      'round-trips through ec_enc_icdf/ec_dec_icdf; Laplace symbol intervals in coding order 0,-1,+1,... adjacent and '
                      'ending at 32768, every fm decodes into the encoder\'s interval, for all e_prob_model pairs, random legal pairs '
-                     'and a sweep of the documented (fs,decay) domain'}
+                     'and a sweep of the documented (fs,decay) domain; every (table contents, ftb) pair that reaches '
+                     'ec_enc_icdf/ec_dec_icdf (link-time --wrap) while the public encoder/decoder run over 120 configurations is '
+                     'a well-formed ICDF for the ftb of that call'}
     level = '0' if ctx.quick else '1'
     hs = _harness(ctx, 'c17_search', 'plain', opt='-O2')
     hl = _harness(ctx, 'c17_laplace', 'plain', opt='-O2')
-    with concurrent.futures.ThreadPoolExecutor(max_workers=2) as ex:
+    hsites = _harness(ctx, 'c17_sites', 'plain', opt='-O2', extra=WRAP)
+    with concurrent.futures.ThreadPoolExecutor(max_workers=3) as ex:
         f1 = ex.submit(common.sh, [hs, level, str(ctx.seed)], None, 3000)
         f2 = ex.submit(common.sh, [hl, 'search', level, str(ctx.seed)], None, 3000)
-        for name, f in (('c17_search', f1), ('c17_laplace search', f2)):
+        f3 = ex.submit(common.sh, [hsites, 'search', str(ctx.seed), '30' if ctx.quick else '200'], None, 3000)
+        for name, f in (('c17_search', f1), ('c17_laplace search', f2), ('c17_sites search', f3)):
             rc, out = f.result()
             _parse(out, res)
             if rc != 0 or not re.search(r'^S cases=', out, re.M):
